@@ -61,6 +61,10 @@ func main() {
 			cfg.Overlay[k] = c
 		}
 	}
+	if mf := os.Getenv("SYMGO_MODFILE"); mf != "" {
+		// alternative go.mod (the tengo replace directive points at another tree)
+		cfg.Env = append(cfg.Env, "GOFLAGS=-mod=mod -modfile="+mf)
+	}
 	eng, err := interp.Load(cfg)
 	if err != nil {
 		fatal(err)
